@@ -19,7 +19,7 @@ def run(pid, tier):
     # (1) design level -------------------------------------------------------
     mc = [(255, 7 if thorough else 6, 64), (127, 6 if thorough else 5, 64), (7, 7 if thorough else 6, 64)]
     if thorough:
-        mc.append((255, 8, 16))
+        mc.append((255, 8, 16)); mc.append((127, 8, 16)); mc.append((7, 9, 64))
     for (m, maxlen, lawtotal) in mc:
         r = tlc('MCTree', 'MCTree.cfg', pid, 'mc_m%d_l%d' % (m, maxlen), workers=8, coverage=True,
                 env={'M': m, 'MAXLEN': maxlen, 'LAWTOTAL': lawtotal}, timeout=3000)
@@ -39,7 +39,7 @@ def run(pid, tier):
     gens = [(255, 4, None), (127, 4, None), (255, 12, 2500 if not thorough else 20000),
             (127, 12, 1500 if not thorough else 10000)]
     if thorough:
-        gens += [(255, 5, None)]
+        gens += [(255, 5, None), (127, 5, None), (255, 6, None)]
     nbeh = 0
     for (m, depth, simnum) in gens:
         tag = 'gen_m%d_d%d%s' % (m, depth, '_sim' if simnum else '')
